@@ -337,6 +337,56 @@ class PoolObj:
         return None
 
 
+class _Holder:
+    def __init__(self, ui, world):
+        self.ui, self.world = ui, world
+
+
+class UIJsonObj:
+    """One UIJson (object + data form parameters on disk workspaces): values arrive through
+    attribute assignment or update(); validate() is the verdict."""
+
+    letters = {
+        "object=member": ("set", "A"), "object=other-workspace": ("set", "C"),
+        "update:object=member": ("update", "A"), "update:object=other-workspace": ("update", "C"),
+        "validate()": ("validate", None),
+    }
+
+    def make(self, fix):
+        world = N.uijson_world()
+        return _Holder(N.make_uijson(world[0], None, None), world)
+
+    def call(self, obj, letter, fix):
+        kind, key = self.letters[letter]
+        if kind == "set":
+            obj.ui.object = obj.world[2][key]
+        elif kind == "update":
+            obj.ui.update({"object": obj.world[2][key]})
+        else:
+            obj.ui.validate()
+
+    def _selected(self, obj):
+        val = obj.ui.object
+        return next((k for k, e in obj.world[2].items() if e is val), None if val is None else "?")
+
+    def expected(self, obj, letter, fix):
+        if self.letters[letter][0] != "validate":
+            return None  # membership is the business of validate()
+        return self._selected(obj) in (None, "A", "B")
+
+    def fresh(self, obj, fix):
+        try:
+            return _Holder(N.make_uijson(obj.world[0], obj.ui.object, obj.ui.data), obj.world)
+        except Exception:  # pylint: disable=broad-except
+            return None
+
+    def observe(self, obj, fix):
+        return {"object": self._selected(obj)}
+
+    def dispose(self, obj):
+        N.cleanup(obj.world[0], obj.world[1], obj.world[3])
+
+
 def objects():
     out = {f"validator:{c}": Validator(c) for c in Validator.table}
     out["InputValidation"] = InputValidationObj()
@@ -348,6 +398,7 @@ def objects():
     out["FormParameter:ChoiceString"] = FormParameterObj()
     out["EnforcerPool[type,value]"] = PoolObj("EnforcerPool[type,value]")
     out["EnforcerPool[type,uuid]"] = PoolObj("EnforcerPool[type,uuid]")
+    out["UIJson"] = UIJsonObj()
     return out
 
 
@@ -387,6 +438,8 @@ def execute(name, letters, fix):
                               {"used": list(got), "fresh": list(got_twin)}))
             if not ok and before != state:
                 fails.append((CL_UNCHANGED, "changed", {"changed": _diff(before, state)}))
+    if hasattr(spec, "dispose"):
+        spec.dispose(obj)
     return fails, trace
 
 
